@@ -6,7 +6,7 @@
     theorem carries a decidable hypothesis excluding exactly that class of inputs
     and a [..._refuted] theorem exhibits a witness inside the class. *)
 From Ferrous Require Import Base.Bytes Model.Resp Model.Types Model.Strings Model.Lists
-  Spec.Collections Proofs.BytesFacts Proofs.ListsFacts.
+  Spec.Collections Proofs.BytesFacts Proofs.ListsFacts Proofs.MixedFacts.
 From Ferrous Require Proofs.StringsFacts.
 Open Scope Z_scope.
 
@@ -134,6 +134,20 @@ Theorem c03_preserves_key_uniqueness :
   forall now d name parts oracle r d',
   exec_lists now d name parts oracle = Some (r, d') -> StringsFacts.wf_db d -> StringsFacts.wf_db d'.
 Proof. exact exec_lists_keys_wf. Qed.
+
+(** The same invariant along histories that MIX this family with the string / key-space
+    family (SET, DEL, RENAME, EXPIRE, FLUSHDB, ... : the first two dispatchers of exec_db),
+    in any order, at any times: those commands only store strings, delete entries, move an
+    existing entry or change a deadline. *)
+Theorem c03_invariant_mixed_histories :
+  forall cs k e, In (k, e) (d_data (mixed_run empty_db cs)) ->
+  match e_val e with
+  | VList l => l <> []
+  | VSet s => s <> [] /\ NoDup s
+  | VHash h => h <> [] /\ NoDup (map fst h)
+  | _ => True
+  end.
+Proof. exact mixed_run_empty_removed_unique. Qed.
 
 (** non-vacuity: a concrete history in which two collections empty out and vanish *)
 Example c03_wf_reachable :
